@@ -1,3 +1,4 @@
+import GramModel.Lemmas.ArmsTie
 import GramModel.Lemmas.Print
 import GramModel.Lemmas.PrintDerives
 import GramModel.Lemmas.PrintLex
@@ -545,3 +546,20 @@ private def badCc : CharClass := { C16_cc with isAlnum := fun c => C16_cc.isAlnu
 example : kindsOfResult (tokenize badCc (printTm exNm exApp)) ≠ some (printKinds exNm exApp) := by decide
 
 end lexing
+
+/-! ## The operator arms of `Display`, read off `term.rs` on every run -/
+
+/-- Each of the nine binary arms of `impl Display for Variant` prints `group(left) OP group(right)` — single spaces, the
+operator text the model prints for that operator (`opChars`), the operands in their own places, both through `group` — and
+negation prints `-` directly followed by `group(operand)`: what `printTm` does for the one `bin` constructor
+(C16_operands_grouped), row by row.  The remaining arms (binders, application, definitions, conditional, leaves) and the
+helpers `annotation` and `group` are the texts the model was written from (CRC-32 of their comment-free text; `group`'s
+partition is C16_atomic_table). -/
+def C16_display_arms_tie_stmt : Prop :=
+  printOpsOK = true ∧
+  Generated.printOtherArms = [(.Unifier, 4229655252), (.Type, 2387717100), (.Variable, 1933842675), (.Lambda, 2740698178),
+    (.Pi, 2852654696), (.Application, 3204400415), (.Let, 186757351), (.Integer, 819329630), (.IntegerLiteral, 3639700320),
+    (.Boolean, 1061493985), (.True, 1974612929), (.False, 610317945), (.If, 3276004331)] ∧
+  Generated.printAnnotationFn = 1193392906 ∧ Generated.printGroupFn = 2283885570
+theorem C16_display_arms_tie : C16_display_arms_tie_stmt := by
+  unfold C16_display_arms_tie_stmt; decide
